@@ -79,6 +79,11 @@ class SliceFlow:
             if r and r[0] == "self":
                 return self.summary(r[1])
             return None
+        if isinstance(e, ast.IfExp):
+            # either arm; an arm that is not a group (`[]`, None) contributes nothing
+            parts = [self.counts(fname, n, x, depth + 1, seen) for x in (e.body, e.orelse)]
+            parts = [p_ for p_ in parts if p_ is not None]
+            return frozenset().union(*parts) if parts else None
         if isinstance(e, ast.Subscript):
             base = self.counts(fname, n, e.value, depth + 1, seen)
             if base is None:
@@ -137,8 +142,13 @@ def run(ctx: Ctx) -> None:
         if not fs:
             ctx.ob("R14.1", f"parser:CxxParser.{fname}|all tokens placed once", True, node=pm.fn(fname), mod=mod, detail={"path_states": steps})
         for f in fs:
-            cond = _dominating_condition(pm, fname, f.at)
-            ctx.ob("R14.1", f"parser:CxxParser.{fname}|{f.kind} {f.var} at `{short(f.at, 40)}` under `{cond}`", False, msg=f.text, node=f.at, mod=mod)
+            # what kind of token is affected: from the token-type facts at the site (branch shape does not matter)
+            from ..typefacts import TypeFacts
+            tf = TypeFacts(pm.cfg(fname), resolve=lambda c_, fname=fname: pm.resolve(fname, c_))
+            n_at = node_containing(pm.cfg(fname), f.at) if f.at is not None else None
+            c_ = tf.at(n_at, f.var) if n_at is not None else ("notin", frozenset())
+            which = "type " + "/".join(sorted(c_[1])) if c_[0] == "in" and c_[1] else f"under `{_dominating_condition(pm, fname, f.at)}`"
+            ctx.ob("R14.1", f"parser:CxxParser.{fname}|{f.kind} {f.var} of {which} at `{short(f.at, 40)}`", False, msg=f.text, node=f.at, mod=mod)
     ctx.extra["linear_path_states"] = total_steps
 
     # ---------------------------------------------------------------- R14.2
